@@ -15,7 +15,7 @@ PROPS_MODULE = 'C16'
 MODEL_TARGETS = ['theories/Case_C16.vo']
 HEADER = ('From Coq Require Import List. Import ListNotations.\n'
           'Require Import Aiuti.Bridge Aiuti.Case_C16.')
-CASE_TYPE = 'Case_C16.case'
+CASE_TYPE = 'Case_C16.pcase'
 VERDICT = 'Case_C16.verdict'
 PARALLEL = 16
 CHUNK = 300
@@ -47,13 +47,21 @@ def mk(fn, src, xs, fail=None, dur=(), sched=None, ekind=0, wloop=None, **kw):
 # --------------------------------------------------------------------------
 
 def run_impl(case):
-    o = D.run_gated(case)
-    return o
+    if case.get('kind') == 'pair':
+        return D.run_gated_pair(case)
+    return D.run_gated(case)
+
+
+def _err_single(msg):
+    return dict(result='error', trace=[], consumed=[], outcome=None, joined=False, threads_left=0,
+                nworkers=0, pulls_on=[], ticks=0, parks=[], errors=[msg])
 
 
 def error_obs(case, o):
-    return dict(result='error', trace=[], consumed=[], outcome=None, joined=False, threads_left=0,
-                nworkers=0, pulls_on=[], ticks=0, parks=[], errors=[o.get('harness_error', '')])
+    msg = o.get('harness_error', '')
+    if case.get('kind') == 'pair':
+        return dict(result='error', trace=[], subs=[_err_single(msg), _err_single(msg)], threads_left=0, errors=[msg])
+    return _err_single(msg)
 
 
 def _cfg(case):
@@ -79,15 +87,18 @@ def _pull_thread(p):
     return {(): 0, ('w',): 1, ('c',): 2}.get(tuple(p), 3)
 
 
-def to_coq(case, o):
+def _final_lit(case, o, nlines):
+    parks = C.coq_list([f'({C.coq_nat(d)}, {C.coq_nat(t)})' for d, t in o['parks']])
+    return (f"CaseL {_cfg(case)} {C.coq_bool(case['src'] == 'iterable')} {C.coq_nat(min(4000, nlines))} "
+            f"{RES.get(o['result'], 3)} "
+            f"{C.coq_list([C.coq_nat(x) for x in o['consumed']])} {_out(o['outcome'])} "
+            f"{C.coq_bool(o['joined'])} {C.coq_nat(o['threads_left'])} {C.coq_nat(o['nworkers'])} "
+            f"{_pull_thread(o['pulls_on'])} {parks}")
+
+
+def _single_lit(case, o):
     if case.get('lines'):
-        parks = C.coq_list([f'({C.coq_nat(d)}, {C.coq_nat(t)})' for d, t in o['parks']])
-        nlines = min(4000, sum(1 for t in o['trace'] if t[1] == 'line'))
-        return (f"CaseL {_cfg(case)} {C.coq_bool(case['src'] == 'iterable')} {C.coq_nat(nlines)} "
-                f"{RES.get(o['result'], 3)} "
-                f"{C.coq_list([C.coq_nat(x) for x in o['consumed']])} {_out(o['outcome'])} "
-                f"{C.coq_bool(o['joined'])} {C.coq_nat(o['threads_left'])} {C.coq_nat(o['nworkers'])} "
-                f"{_pull_thread(o['pulls_on'])} {parks}")
+        return _final_lit(case, o, sum(1 for t in o['trace'] if t[1] == 'line'))
     tr = []
     for n, op, cons, en, due in o['trace']:
         tr.append(f"Dc {_who(n)} {GATE.get((n, op), 9)} {C.coq_nat(cons)} {C.coq_bool('c' in en)} "
@@ -101,8 +112,23 @@ def to_coq(case, o):
             f"{_pull_thread(o['pulls_on'])} {C.coq_nat(o['ticks'])} {parks}")
 
 
+def to_coq(case, o):
+    if case.get('kind') == 'pair':
+        n = len(o['trace'])
+        a, b = [dict(sc, fn=case['fn']) for sc in case['subs']]
+        return f"Two ({_final_lit(a, o['subs'][0], n)}) ({_final_lit(b, o['subs'][1], n)})"
+    return f"One ({_single_lit(case, o)})"
+
+
 def explain_exprs(case, o):
-    lit = to_coq(case, o)
+    if case.get('kind') == 'pair':
+        out = []
+        for sc in case['subs']:
+            cf = _cfg(dict(sc, fn=case['fn']))
+            out.append(f"let s := run {cf} (canon {cf}) in (Bridge.consumed s, cst s, worker_alive s)")
+        lit = to_coq(case, o)
+        return out + [f"(agree_p ({lit}), ok_p ({lit}))"]
+    lit = _single_lit(case, o)
     if case.get('lines'):
         return [f"let s := run {_cfg(case)} (canon {_cfg(case)}) in (Bridge.consumed s, cst s, worker_alive s)",
                 f"(agree ({lit}), ok ({lit}))"]
@@ -148,6 +174,13 @@ def corpus():
         mk('a', 'range', [0, 1, 2], None, []),
         mk('a', 'iterable', [2, 2], 2, [2, 1, 3]),
         mk('a', 'iterable', [], None, [0]),
+        # two bridges alive at once (seeded C16-m8: a shared worker loop breaks the second one)
+        dict(kind='pair', fn='s', subs=[dict(src='agen', xs=[3, 1], fail=None, ekind=0, dur=[0, 3, 0], wloop=None),
+                                        dict(src='agen', xs=[4, 5], fail=2, ekind=0, dur=[0, 0, 0], wloop=None)],
+             sched=['c', 'w', 'w', 'w', 'd', 'x', 'x', 'x', 'x', 'x', 'x', 'x', 'd', 'd', 'd', 'd']),
+        dict(kind='pair', fn='a', subs=[dict(src='iterator', xs=[3, 1], fail=2, ekind=0, dur=[0, 2, 0], wloop=None),
+                                        dict(src='generator', xs=[0, 5, 4], fail=None, ekind=0, dur=[], wloop=None)],
+             rseed=7, stay=0.5),
         # empty sources
         mk('a', 'iterator', [], None, []),
         mk('s', 'agen', [], 0, []),
@@ -229,12 +262,30 @@ def _line_case(rnd, nmax=4):
     return c
 
 
+def _pair_case(rnd, nmax=3):
+    """two bridges of the same function alive at the same time"""
+    fn = rnd.choice('ssa')
+    subs = []
+    for _ in range(2):
+        kind = rnd.choice(SYNC_KINDS if fn == 's' else ASYNC_THREADED)
+        n = rnd.randint(0, nmax)
+        xs = [rnd.choice([0, 1, 2, 3, 4, 5]) for _ in range(n)]
+        fail = rnd.randint(0, n) if rnd.random() < 0.4 else None
+        grid = rnd.choice([[0], [0, 0, 1, 2], [0, 2, 4]])
+        subs.append(dict(src=kind, xs=xs, fail=fail, ekind=0, dur=[rnd.choice(grid) for _ in range(n + 1)],
+                         wloop=None))
+    return dict(kind='pair', fn=fn, subs=subs, rseed=rnd.randrange(1 << 30),
+                stay=rnd.choice([0.0, 0.3, 0.6, 0.85]), lines=rnd.random() < 0.25)
+
+
 def gen_random(tier, seed):
     rnd = random.Random(seed * 7919 + 16)
     n = 1500 if tier == 'quick' else 30000
     out = [_rand_case(rnd) for _ in range(n)]
     rnd2 = random.Random(seed * 6007 + 1616)
     out += [_line_case(rnd2) for _ in range(800 if tier == 'quick' else 12000)]
+    rnd3 = random.Random(seed * 4001 + 161616)
+    out += [_pair_case(rnd3) for _ in range(400 if tier == 'quick' else 6000)]
     return out
 
 
@@ -246,10 +297,49 @@ def gen_search(tier, seed):
             out.append(dict(b, sched=s))
     out += [_rand_case(rnd, 7) for _ in range(3000)]
     out += [_line_case(rnd, 3) for _ in range(4000)]
+    out += [_pair_case(rnd, 3) for _ in range(1500)]
     return out
 
 
+def _shrink_pair(case):
+    if case.get('sched') is None:
+        o = D.run_gated_pair(case)
+        c2 = {k: v for k, v in case.items() if k not in ('rseed', 'stay')}
+        c2['sched'] = [t[0] for t in o['trace']]
+        return [c2]
+    out = []
+    for bi in (0, 1):
+        sc = case['subs'][bi]
+        for i in range(len(sc['xs'])):
+            nf = sc['fail']
+            if nf is not None and nf > i:
+                nf -= 1
+            d = list(sc['dur'])
+            if i < len(d):
+                d = d[:i] + d[i + 1:]
+            subs = list(case['subs'])
+            subs[bi] = dict(sc, xs=sc['xs'][:i] + sc['xs'][i + 1:], fail=nf, dur=d)
+            out.append(dict(case, subs=subs))
+        if sc['fail'] is not None:
+            subs = list(case['subs'])
+            subs[bi] = dict(sc, fail=None)
+            out.append(dict(case, subs=subs))
+        if any(sc['dur']):
+            subs = list(case['subs'])
+            subs[bi] = dict(sc, dur=[0] * len(sc['dur']))
+            out.append(dict(case, subs=subs))
+    sched = case['sched']
+    for k in (len(sched) // 2, len(sched) - 1):
+        if k >= 0:
+            out.append(dict(case, sched=sched[:k]))
+    if case.get('lines'):
+        out.append(dict(case, lines=False))
+    return [c for c in out if c != case]
+
+
 def shrink_candidates(case):
+    if case.get('kind') == 'pair':
+        return _shrink_pair(case)
     out = []
     xs = case['xs']
     fail = case.get('fail')
@@ -295,7 +385,15 @@ def distribution(cases, obs):
              outcome_stop=0, outcome_raised=0, max_len=0, parks_with_ticks=0)
     for k in ASYNC_THREADED + ASYNC_INLINE + SYNC_KINDS:
         d['src_' + k] = 0
+    d['pairs'] = d['pairs_sync'] = d['pairs_async'] = d['pair_decisions'] = 0
     for c, o in zip(cases, obs):
+        if c.get('kind') == 'pair':
+            d['pairs'] += 1
+            d['pairs_sync' if c['fn'] == 's' else 'pairs_async'] += 1
+            d['line_level'] += bool(c.get('lines'))
+            if isinstance(o, dict) and 'trace' in o:
+                d['pair_decisions'] += len(o['trace'])
+            continue
         d['to_async_iter' if c['fn'] == 'a' else 'to_sync_iter'] += 1
         d['src_' + c['src']] += 1
         d['inline' if (c['fn'] == 'a' and c['src'] in NONITER) else 'threaded'] += 1
@@ -331,7 +429,9 @@ RULE = ('case = (bridge function, source kind, element identities, failure posit
         'to_sync_iter and their nested functions a scheduling point of its thread; a timed Queue.get may also expire '
         'early, at most twice per run), compared with the model on the schedule-independent final observation only.  '
         'non-trivial (decided in Coq) = threaded bridge, non-empty source, the consumer ran between two worker steps '
-        '(line-level: at least 4 line-level decisions)')
+        '(line-level: at least 4 line-level decisions); pair layer (part of the random layer): two bridges of the same '
+        'function alive at the same time (two consumer threads / two consumer tasks on one loop, one schedule), each '
+        'bridge judged separately by agree (final observation) and ok')
 EXHAUSTIVE_NOTE = ('all schedules (stateless DFS over the controller\'s enabled sets) for every source of length <= 3 '
                    '(quick) / <= 4 (thorough), every failure position, every source kind')
 ASSUMPTIONS = [
@@ -363,10 +463,10 @@ LEVEL_TEXT = ('Both bridges are modelled as one small-step two-party machine (co
               '(to_async_iter over an Iterator: Tick enabled whenever the worker is inside the source), no_deadlock, '
               'measure_exact (measure = exact number of remaining non-Tick steps, 4n+11 / 3n+8 / n+2 initially) and '
               'bridge_terminates (every schedule of fair rounds reaches Done within measure(init) rounds), plus monitor_sound, '
-              'monitor_complete (ok accepts every finished model run), agree_implies_ok and canonical_schedule_finishes. Tied to /repo by running the real '
+              'monitor_complete (ok accepts every finished model run), agree_implies_ok, canonical_schedule_finishes and pair_monitor_componentwise (two bridges alive at once are judged bridge by bridge). Tied to /repo by running the real '
               'to_async_iter / to_sync_iter under gated threads on every schedule of short sources (exhaustive), random longer '
               'ones and random source-line-level interleavings, the model being driven by the same thread choices and compared gate by gate inside Coq.')
-LEVEL_NOTE = ('trusted: Coq kernel + vm_compute; no axioms (all 12 theorems closed under the global context); the gated-thread '
+LEVEL_NOTE = ('trusted: Coq kernel + vm_compute; no axioms (all 13 theorems closed under the global context); the gated-thread '
               'harness and Case_C16.v; asyncio/queue/concurrent.futures primitives are modelled and validated only by the '
               'correspondence runs; line-level runs are compared with the model only on the final observation (agree for CaseL). The model is untimed: "does not block the loop" is proved as Tick-enabledness; the ticker '
               'counts in virtual time are a monitor check on the implementation (ticks >= d-1 during a pull of d ticks), not a '
